@@ -4,9 +4,11 @@ import (
 	"fmt"
 	"net"
 	"runtime"
+	"sync"
 	"time"
 
 	"verif/harness/absx"
+	"verif/harness/fakemc"
 	"verif/harness/stack"
 	"verif/harness/wire"
 )
@@ -63,7 +65,33 @@ func Lifecycle(a Args) {
 		add("quiet-batch-get", MCmd{Op: "get", Keys: []string{"k2", "k1"}, Quiet: []bool{true, false}})
 		add("quiet-set", MCmd{Op: "set", K: "k2", V: []int{3}, Quiet: []bool{true}}, MCmd{Op: "noop"})
 	}
+	// all hits: the server has several values to relay after the last request byte
+	add("mget-hits", MCmd{Op: "get", Keys: []string{"k1", "k1", "k1", "k1", "k1", "k1"}, Quiet: []bool{false, false, false, false, false, false}})
+	if !text {
+		add("quiet-batch-hits", MCmd{Op: "get", Keys: []string{"k1", "k1", "k1", "k1", "k1"}, Quiet: []bool{true, true, true, true, false}})
+	}
 	pooled := a.Cfg.L1 == "batched" || a.Cfg.L2 == "batched"
+	// the backends can be held at their next request: the client then leaves while the server is
+	// in the middle of executing / relaying, which no byte offset alone can arrange
+	var hmu sync.Mutex
+	var holding bool
+	var arrived, release chan struct{}
+	gate := func(conn int, r *fakemc.Request) {
+		hmu.Lock()
+		h, ar, rl := holding, arrived, release
+		if h {
+			holding = false
+		}
+		hmu.Unlock()
+		if h {
+			close(ar)
+			<-rl
+		}
+	}
+	st.L1.Gate = gate
+	if st.L2 != nil {
+		st.L2.Gate = gate
+	}
 	// warm up, then take the baseline
 	for i := 0; i < 3; i++ {
 		c, err := wire.Dial(st.Socks[port], text)
@@ -103,7 +131,15 @@ func Lifecycle(a Args) {
 			all = append(all, p...)
 			bounds[len(all)] = true
 		}
-		for k := 0; k <= len(all); k++ {
+		for k := 0; k <= len(all)+1; k++ {
+			held := k == len(all)+1
+			if held {
+				// the whole stream again; this time the first backend request is held until the client has left
+				k = len(all)
+				hmu.Lock()
+				holding, arrived, release = true, make(chan struct{}), make(chan struct{})
+				hmu.Unlock()
+			}
 			if a.N > 0 && k != 0 && k != len(all) && !bounds[k] && (k*7919+int(a.Seed)*104729)%a.N != 0 {
 				continue
 			}
@@ -112,7 +148,18 @@ func Lifecycle(a Args) {
 			if k > 0 {
 				conn.Write(all[:k])
 			}
-			if k == len(all) {
+			if held {
+				select {
+				case <-arrived:
+				case <-time.After(300 * time.Millisecond): // the stream causes no backend request
+				}
+				conn.Close()
+				time.Sleep(2 * time.Millisecond)
+				hmu.Lock()
+				holding = false
+				hmu.Unlock()
+				close(release)
+			} else if k == len(all) {
 				// give the server the chance to be anywhere in its processing, then leave without reading
 				time.Sleep(time.Duration(k%3) * time.Millisecond)
 			}
@@ -122,6 +169,8 @@ func Lifecycle(a Args) {
 			switch {
 			case k == 0:
 				at = "start"
+			case held:
+				at = "held"
 			case k == len(all) && s.name == "quit":
 				at = "afterquit"
 			case k == len(all):
@@ -149,6 +198,9 @@ func Lifecycle(a Args) {
 			rec.Emit(map[string]interface{}{"ev": "prefix", "cfg": a.Cfg.String(), "proto": a.Proto, "stream": s.name, "n": k, "len": len(all), "at": at,
 				"open_l1": o1, "open_l2": o2, "gor": g, "fresh_ok": fresh == "ok", "fresh": fresh, "accepting": accepting})
 			n++
+			if held {
+				break
+			}
 		}
 	}
 	fmt.Printf("{\"experiments\": %d, \"streams\": %d}\n", n, len(streams))
